@@ -37,6 +37,7 @@ def warm():
     cf_mc(wd)
     cf.gen(wd, "A3", 3, 2, 2, False)
     cf.gen(wd, "A3", 3, 3, 2, False)
+    cf.gen(wd, "A4o", 4, 2, 2, False)
 
 
 def run(tier: str) -> int:
@@ -47,6 +48,17 @@ def run(tier: str) -> int:
     rng = random.Random(1800 + seed())
     for it in items:  # C18 holds on the fixed family: seeded three-atom events are added on top
         it["evs"] = it["evs"] + rng.sample(it["triples"], min(len(it["triples"]), 10 if tier == "quick" else 40))
+    extra4 = {}
+    if True:
+        # C18 holds on the fixed family, so seeded 4-node inputs are added (sparser graphs keep family F tractable)
+        g4 = cf.gen(wd, "A4o", 4, 2, 2, False)[0]
+        pool = [g for g in g4["graphs"] if len(g["b"]) <= 3]
+        s4 = [e for e in g4["events"] if len(e) == 1]
+        p4 = [e for e in g4["events"] if len(e) == 2]
+        ng, ne = (8, 16) if tier == "quick" else (120, 60)
+        for k, gr in enumerate(rng.sample(pool, ng)):
+            items.append({"g": gr, "gid": f"A4-{k}", "evs": rng.sample(s4, ne // 2) + rng.sample(p4, ne), "triples": []})
+        extra4 = {"four_node_graphs": ng, "four_node_events_per_graph": ne + ne // 2}
     groups = cf.run_y0(wd, "cg", items, "c18")
     vs, st, by_id = cf.judge(wd, groups, seeds=(1, 2) if tier == "quick" else (1, 2, 3))
     cf.report(out, vs, by_id)
@@ -56,7 +68,7 @@ def run(tier: str) -> int:
                       "slice of all pairs, seeded triples); TLC evaluates P(event) and P(relabelled event) in functional models "
                       "with shared noise on all 8 base assignments and checks acyclicity / ancestrality / membership on the "
                       "returned graph; non-trivial = distinct (graph, event) on a graph with a bidirected edge",
-                      {"design_mc": [mc]})
+                      {"design_mc": [mc], **extra4})
     cov["states"] += mc["distinct"]
     cov["transitions"] += mc["generated"]
     return out.finish("model_checking", cov, [
